@@ -65,7 +65,7 @@ theorem sortedRead_cons (H : Heap) (links : Option LinkFn) (less : Less) (heap :
   simp only
   cases hr : x.src.rest with
   | nil =>
-    have : x.src.read = .stop x.src.term := by unfold Src.read; rw [hr]
+    have : x.src.read = .stop x.src.term x.src.afterStop := by unfold Src.read; rw [hr]
     rw [this]
     cases ht : x.src.term with
     | eof => exact ⟨x, rest, rest, err, rfl, hperm, .endEof hr ht, rfl⟩
